@@ -4,7 +4,7 @@ set -u
 patch="$1"; id="$2"; tier="${3:-quick}"
 cd /verif
 if ! git -C /repo diff --quiet; then echo "/repo has uncommitted changes; refusing"; exit 3; fi
-git -C /repo apply "$patch" || { echo "patch does not apply"; exit 3; }
+git -C /repo apply "$(realpath "$patch")" || { echo "patch does not apply"; exit 3; }
 ./check "$id" "$tier" 2>&1 | tail -n 6
 rc=${PIPESTATUS[0]}
 git -C /repo checkout -- . && git -C /repo clean -fdq -e target
